@@ -74,7 +74,7 @@ def handle : List String → String
     | _, _ => "bad-op"
   | ["nlsf2a", xs] =>
     match parseIntList xs with
-    | some x => resStr (fun a => s!"OK a={intList a} ig={lpcInversePredGain a}") (nlsf2a x)
+    | some x => resStr (fun r => s!"OK a={intList r.1} ig={lpcInversePredGain r.1} tr={r.2}") (nlsf2aTr x)
     | none => "bad-op"
   | ["invgain", xs] =>
     match parseIntList xs with
@@ -84,7 +84,7 @@ def handle : List String → String
     match parseIntList xs with
     | some x => if x.isEmpty then "bad-op" else
       let r := lpcFit x 5
-      s!"OK q={intList r.1} a={intList r.2}"
+      s!"OK q={intList r.1} a={intList r.2} tr={truncCount (lpcFitCasts x)}"
     | none => "bad-op"
   | ["bwexp32", xs, c] =>
     match parseIntList xs, parseInt c with
